@@ -387,6 +387,13 @@ fn realtime_cases(cx: &mut Cx, rng: &mut Rng) {
     let w = c.write(b"hello", rng);
     let first = server_accepts(&cfg, &shared, &w);
     cx.decide("ss2022-tcp-first-presentation", m.name(), json!({"delta": 30, "realtime": true}), true, first);
+    // (c) timestamps count whole seconds: accepted at second N with ts = N+30, the handshake is still acceptable during
+    //     the whole of second N+60, i.e. for up to 61 s of real time - the cache must not forget it after 60.0 s
+    let shared_c = real::server_shared(&cfg).unwrap();
+    let mut cc = RefClient::new(&cfg, &target, rng, NOW, ClientOpts { timestamp: Some(NOW as i64 + 30), ..Default::default() });
+    let wc = cc.write(b"hello", rng);
+    let first_c = server_accepts(&cfg, &shared_c, &wc);
+    let t_c = std::time::Instant::now();
     // (b) capacity: accept h, then 102401 further valid handshakes, then h again
     let shared_b = real::server_shared(&cfg).unwrap();
     let mut cb = RefClient::new(&cfg, &target, rng, NOW, ClientOpts::default());
@@ -403,6 +410,18 @@ fn realtime_cases(cx: &mut Cx, rng: &mut Rng) {
     pin_clock(NOW + 31);
     let second = server_accepts(&cfg, &shared, &w);
     cx.decide("ss2022-tcp-replay-after-31s-real-time", m.name(), json!({"delta": 30, "clock_advanced_by": 31, "real_seconds_slept": 31, "timestamp_still_valid": true}), false, second);
+    let target_elapsed = std::time::Duration::from_millis(60_300);
+    if t_c.elapsed() < target_elapsed {
+        std::thread::sleep(target_elapsed - t_c.elapsed());
+    }
+    pin_clock(NOW + 60);
+    let second_c = server_accepts(&cfg, &shared_c, &wc);
+    let slept = t_c.elapsed();
+    if first_c && slept < std::time::Duration::from_millis(60_950) {
+        cx.decide("ss2022-tcp-replay-in-the-61st-second", m.name(), json!({"delta": 30, "clock_advanced_by": 60, "real_seconds_elapsed": slept.as_secs_f64(), "timestamp_still_valid": true}), false, second_c);
+    } else {
+        cx.rep.inconclusive("the 61st-second replay could not be timed (machine too loaded)");
+    }
     pin_clock(NOW);
 }
 
